@@ -231,7 +231,7 @@ fn eval(p: &Parsed, rep: &mut Report, record: bool, label: &str) -> (bool, bool)
 
 pub fn run(cfg: &Cfg, rep: &mut Report) {
     let m = Model::from_env();
-    rep.rule = "documents generated inside the Lean driver from (seed, size) over the canonical class of Comrak/Canon (paragraph, ATX heading, thematic break, fenced code, block quote, tight/loose bullet and ordered lists; text with escapes and character references, code spans, emphasis, strong, links, images, autolinks, hard and soft breaks), each satisfying Doc.ok; the real parser's tree is compared position-free with toTree d, the real HTML with refHtml d. distinct_nontrivial counts distinct node-kind sequences of the generated trees".into();
+    rep.rule = "documents generated inside the Lean driver from (seed, size) over the canonical class of Comrak/Canon (paragraph, ATX and setext heading, thematic break, fenced and indented code, block quote, tight/loose bullet and ordered lists; text with escapes and character references, code spans, emphasis, strong, strikethrough, inline and reference links with definitions before/after use, label case variants and shadowed duplicate definitions, images, autolinks, hard and soft breaks), each satisfying Doc.ok; the real parser's tree is compared position-free with toTree d, the real HTML with refHtml d. distinct_nontrivial counts distinct node-kind sequences of the generated trees".into();
     let n: u64 = if cfg.tier_thorough { 200_000 } else if cfg.full { 30_000 } else { 4_000 };
     let base = cfg.seed.wrapping_mul(1_000_003) % 1_000_000_007;
     let mut failing: Vec<(u64, u64)> = vec![];
@@ -276,6 +276,29 @@ pub fn run(cfg: &Cfg, rep: &mut Report) {
             }
             if kinds.len() > 2 {
                 rep.nontrivial(&kinds);
+            }
+            {
+                // constructs the tree does not show: reference definitions (leading / trailing), setext, indented code
+                let lines: Vec<&[u8]> = p.md.split(|c| *c == b'\n').collect();
+                let is_def = |l: &[u8]| l.first() == Some(&b'[') && l.windows(3).any(|w| w == b"]: ");
+                let first_content = lines.iter().position(|l| !l.is_empty() && !is_def(l));
+                let ndef = lines.iter().filter(|l| is_def(l)).count();
+                if ndef > 0 {
+                    rep.count("docs-with-reference-definitions");
+                    rep.add("reference-definitions", ndef as u64);
+                    let lead = lines.iter().take(first_content.unwrap_or(lines.len())).filter(|l| is_def(l)).count();
+                    rep.add("reference-definitions-before-use", lead as u64);
+                    rep.add("reference-definitions-after-use", (ndef - lead) as u64);
+                }
+                if p.tree.contains("N heading 0 0 0 0 1 1") || p.tree.contains("N heading 0 0 0 0 2 1") {
+                    rep.count("docs-with-setext-heading");
+                }
+                if p.tree.contains("N code_block 0 0 0 0 0 0 0 0 - ") {
+                    rep.count("docs-with-indented-code");
+                }
+                if p.tree.contains(" 1 0 N item") {
+                    rep.count("docs-with-tight-list");
+                }
             }
             if rep.samples.len() < 4 && kinds.len() > 8 {
                 rep.sample(format!("canon {} {}: {:?}", seed, size, show(&p.md)));
